@@ -1,9 +1,10 @@
 //! Bounded stand-in for C06 (zone lookups follow RFC 1034 §4.3.2 / RFC 4592): every zone that is a
-//! subset of a universe of 15 records (apex SOA/NS, a node with A (2 RDATA)/AAAA/TYPE257 and a child, a wildcard
-//! with A and CNAME and a record below it (wildcard as empty non-terminal), a delegation with glue below it and a second, occluded NS set deeper on the same
-//! path, a CNAME owner; owners spelled in mixed case) is built in the real `HashMapTreeZone`, and
-//! every lookup (single type x 8 types, lookup_addrs, lookup_all) of 29 names (existing, empty
-//! non-terminal, wildcard-covered, below cuts, non-existent, mixed case, outside the zone) with both
+//! subset of a universe of 15 records (apex SOA/NS; a node with A (2 RDATA), AAAA, TYPE257 and a
+//! child; a wildcard with A and CNAME and a record below it (wildcard as empty non-terminal); a
+//! delegation with glue below it and a second, occluded NS set deeper on the same path; a CNAME
+//! owner; owners spelled in mixed case) is built in the real `HashMapTreeZone`, and every lookup
+//! (single type x 8 types, lookup_addrs, lookup_all) of 29 names (existing, empty non-terminal,
+//! wildcard-covered, below cuts, non-existent, mixed case, outside the zone) with both
 //! `search_below_cuts` values, checked and — for names in the zone — unchecked, is compared with the
 //! reference resolver of zone_ref.rs (written from the RFCs).  Iteration, soa() and ns() are compared too.
 #[path = "../zone_ref.rs"]
@@ -54,7 +55,7 @@ fn run(apex: &'static str, subset: u32, names: &[QName]) -> u64 {
             let (got, want) = (real_add(&mut z, r), m.add(r));
             if got != want { fail("add: accepted/rejected differs from the reference", &(&input, "at", r), &got, &want); }
         }
-        let n = match compare_lookups(&z, &m, names, &TYPES) {
+        let n = match compare_lookups(&z, &m, names, &TYPES, true) {
             Ok(n) => n,
             Err((what, got, want)) => fail(&what, &input, &got, &want),
         };
